@@ -151,10 +151,10 @@ def extract_selected_variable_and_expression(symbolic_cls: Type, domain: Optiona
     :param kwargs: The keyword arguments to the class constructor.
     :return: The selected variable and expression.
     """
-    cache_keys = get_cache_keys_for_class_(Variable._cache_, symbolic_cls)
-    if not domain and cache_keys:
-        domain = From((v for a, v in yield_class_values_from_cache(Variable._cache_, symbolic_cls, from_index=False,
-                                                                   cache_keys=cache_keys)))
+    if not domain:
+        # no domain: the variable ranges over the registry of instances as it is when the variable is evaluated
+        # (Variable._update_domain_and_kwargs_expression_), not as it is now.
+        pass
     elif domain and isinstance(domain.domain, SymbolicExpression):
         # an expression (a variable is iterable, but over bindings) has no values yet: the variable filters them by its
         # type when it evaluates the expression (Variable._update_domain_).
